@@ -91,3 +91,12 @@ package utils
 //@   property C05
 //@   flags safety
 //@   requires[table-covers-every-byte-value] len(hex2intTable) == 256
+
+// deleting all pairs of a key: every index and slice expression stays in range and
+// the loop index never runs past the shrinking list (the multimap behaviour itself
+// is covered by the bounded stand-in args-multimap)
+//@ func delAllArgs
+//@   property C05
+//@   flags safety
+//@   ensures[shrinks] len(result) <= len(args)
+//@   loop 0: invariant[bounds] 0 <= i && i <= n && n == len(args) && n <= old(len(args))
